@@ -10,6 +10,8 @@ EXTENDS CoapWire
 Verdict(w) == DecUDP(w).ok
 \* a reply the endpoint may emit in reaction to a malformed datagram: a Reset, or an error response
 ReplyAllowedForMalformed(ty, code) == ty = 3 \/ code >= 128
+\* RFC 7252 section 3: messages with unknown version numbers MUST be silently ignored; so must runts
+SilentlyIgnored(w) == Len(w) < 4 \/ (w[1] < 256 /\ w[1] \div 64 # 1)
 \* an application handler may run only for something that is a message
 HandlerAllowed(v) == v # "bad"
 =============================================================================
